@@ -39,6 +39,14 @@ fn main() {
     "c14" => vh::engines::c14::run(),
     "c15" => vh::engines::c15::run(),
     "c16" => vh::engines::c16::run(),
+    "c12model" => {
+      // debug helper: prints the generated models of C12 whose label contains the argument
+      for (l, x) in vh::engines::c12::generated_models_for_debug() {
+        if l.contains(&args[2]) {
+          println!("{}", x);
+        }
+      }
+    }
     "dmn" => {
       // debug helper: vh dmn <file.dmn> <invocable> "<feel context>"
       let xml = std::fs::read_to_string(&args[2]).unwrap();
